@@ -26,6 +26,11 @@ MixedTypes == {Prim("str"), Prim("int"), Prim("float"), Prim("bool"),
 M4 == M3 \cup {"rnul"}
 ObjNullTypes == {Obj(<<x, y, "abs">>) : x \in M4, y \in M4}
 HasRnul(T) == \E i \in 1..3 : T.f[i] = "rnul"
+\* annotated properties (default on required / optional, inline enum, format: date): what the emitted field accepts
+MA == {"abs", "opt", "req", "reqdef", "optdef", "reqenum", "reqdate"}
+MB == {"abs", "req", "reqdef"}
+ObjAnnTypes == {Obj(<<x, y, "abs">>) : x \in MA, y \in MB}
+HasAnn(T) == \E i \in 1..3 : T.f[i] \in {"reqdef", "optdef", "reqenum", "reqdate"}
 
 InjSeqs(Sx, n) == {s \in [1..n -> Sx] : \A i, j \in 1..n : i # j => s[i] # s[j]}
 Sizes == MinVars..MaxVars
@@ -40,10 +45,13 @@ Discs(n) == {[mode |-> "complete", prop |-> "kind", mapping |-> FullMap(n)]}
 MultiDisc(n) == [mode |-> "multi", prop |-> "kind", mapping |-> FullMap(n) \o <<<<"t1b", 1>>>>]
 
 \* the "extra" family: (a) undiscriminated object unions in which at least one variant has a required nullable field,
-\* (b) discriminated unions with a non-injective mapping
+\* (b) discriminated unions with a non-injective mapping, (c) undiscriminated object unions in which at least one
+\* variant has an annotated property
 ExtraUnions(sizes) ==
   {[vars |-> s, nullable |-> FALSE, disc |-> NoDisc] :
       s \in {x \in UNION {InjSeqs(ObjNullTypes, n) : n \in sizes} : \E i \in 1..Len(x) : HasRnul(x[i])}}
+  \cup {[vars |-> s, nullable |-> FALSE, disc |-> NoDisc] :
+      s \in {x \in UNION {InjSeqs(ObjAnnTypes, n) : n \in sizes} : \E i \in 1..Len(x) : HasAnn(x[i])}}
   \cup UNION {{[vars |-> s, nullable |-> FALSE, disc |-> MultiDisc(n)] : s \in InjSeqs(ObjTypes2, n)} : n \in sizes}
 
 BaseUnions ==
@@ -57,15 +65,16 @@ Unions == BaseUnions \cup (IF WithExtra THEN ExtraUnions({2}) ELSE {})
 \* ---- conforming instances of a variant (canonical: exactly its declared keys, every subset of the optional ones).
 \* TLC cannot build a SET of trees of different JSON types (it would have to compare them), so instances are
 \* enumerated as homogeneous descriptors [kind, keys, tag] and turned into trees one at a time.
-\* keys in N carry an explicit null
-ObjPayload(K, N, dp, tag) ==
-  O(SelectSeq(<<KV("a", IF "a" \in N THEN Null ELSE S("va")), KV("b", IF "b" \in N THEN Null ELSE S("vb")),
-                KV("c", IF "c" \in N THEN Null ELSE S("vc"))>>, LAMBDA e : e.k \in K)
+\* keys in N carry an explicit null, keys in D a date string (the value a `format: date` property conforms to)
+FieldVal(k, N, D) == IF k \in N THEN Null ELSE IF k \in D THEN S("2020-01-02") ELSE S("v" \o k)
+ObjPayload(K, N, D, dp, tag) ==
+  O(SelectSeq(<<KV("a", FieldVal("a", N, D)), KV("b", FieldVal("b", N, D)), KV("c", FieldVal("c", N, D))>>, LAMBDA e : e.k \in K)
     \o (IF dp = "-" THEN <<>> ELSE <<KV(dp, S(tag))>>))
 
-ObjIdN(K, N, tag) == [kind |-> "obj", keys |-> K, nulls |-> N, tag |-> tag]
+ObjIdND(K, N, D, tag) == [kind |-> "obj", keys |-> K, nulls |-> N, dates |-> D, tag |-> tag]
+ObjIdN(K, N, tag) == ObjIdND(K, N, {}, tag)
 ObjId(K, tag) == ObjIdN(K, {}, tag)
-Lit(x)        == [kind |-> "lit", keys |-> {}, nulls |-> {}, tag |-> x]
+Lit(x)        == [kind |-> "lit", keys |-> {}, nulls |-> {}, dates |-> {}, tag |-> x]
 LitTree(x) ==
   CASE x = "s:va" -> S("va")  [] x = "s:5" -> S("5")
     [] x = "i:0" -> I(0)      [] x = "i:7" -> I(7)
@@ -75,10 +84,11 @@ LitTree(x) ==
     [] x = "m:" -> O(<<>>)    [] x = "m:x=va" -> O(<<KV("x", S("va"))>>)  [] x = "m:a=va" -> O(<<KV("a", S("va"))>>)
     [] x = "m:x=7" -> O(<<KV("x", I(7))>>)  [] x = "m:a=va,x=T" -> O(<<KV("a", S("va")), KV("x", B(TRUE))>>)
     [] x = "null" -> Null
-Tree(id, dp) == IF id.kind = "obj" THEN ObjPayload(id.keys, id.nulls, IF id.tag = "-" THEN "-" ELSE dp, id.tag) ELSE LitTree(id.tag)
+Tree(id, dp) == IF id.kind = "obj" THEN ObjPayload(id.keys, id.nulls, id.dates, IF id.tag = "-" THEN "-" ELSE dp, id.tag) ELSE LitTree(id.tag)
 
 Instances(T, tag) ==
-  CASE T.k = "obj"   -> {ObjIdN(Required(T, "-") \cup X, N, tag) : X \in SUBSET WithMode(T, "opt"), N \in SUBSET WithMode(T, "rnul")}
+  CASE T.k = "obj"   -> {ObjIdND(Required(T, "-") \cup X, N, WithMode(T, "reqdate"), tag) :
+                           X \in SUBSET WithModes(T, OptModes), N \in SUBSET WithMode(T, "rnul")}
     [] T.k = "str"   -> {Lit("s:va"), Lit("s:5")}
     [] T.k = "int"   -> {Lit("i:0"), Lit("i:7")}
     [] T.k = "float" -> {Lit("f:1.5"), Lit("f:2.0")}
